@@ -217,6 +217,18 @@ def run(chk):
     un = jax_utils.unreplicate(rep)
     if not np.array_equal(np.asarray(un['w']), tree['a'][:2]) or float(un['s']) != 3.5:
       chk.violation('C20:unreplicate', 'unreplicate(replicate(x)) != x', {})
+    # unreplicate is x[0] for every leaf, also for arrays laid out over the devices along another axis than the leading one
+    if ndev > 1 and trial < 3:
+      from jax.sharding import Mesh, NamedSharding, PartitionSpec
+      mesh = Mesh(np.array(jax.local_devices()), ('model',))
+      host = np.arange(3 * ndev * 2, dtype=np.float32).reshape(3, ndev * 2)
+      for spec in (PartitionSpec(None, 'model'), PartitionSpec('model') if 3 % ndev == 0 else PartitionSpec(), PartitionSpec()):
+        arr = jax.device_put(host, NamedSharding(mesh, spec))
+        un2 = np.asarray(jax_utils.unreplicate({'x': arr})['x'])
+        chk.count(('C20:unreplicate:sharded', str(spec)))
+        if un2.shape != host[0].shape or not np.array_equal(un2, host[0]):
+          chk.violation('C20:unreplicate', f'unreplicate of a {host.shape} array with sharding {spec} over {ndev} devices returns shape {un2.shape}, '
+                                           f'expected x[0] of shape {host[0].shape}', {})
     k = rng.randint(1, 4)
     forest = [{'m': rng.randint(0, 9, size=(2,)).astype(np.int32), 'q': (np.float32(i), np.int32(i * 2))} for i in range(k)]
     st = common_utils.stack_forest(forest)
@@ -224,6 +236,11 @@ def run(chk):
     if np.asarray(st['m']).shape != (k, 2) or any(not np.array_equal(st['m'][i], forest[i]['m']) for i in range(k)) \
        or [float(v) for v in st['q'][0]] != [float(i) for i in range(k)] or not isinstance(st['q'], tuple):
       chk.violation('C20:stack_forest', 'stack_forest: leaf i of the result is not the stack of the forest\'s leaves', {'k': k})
+    # leaves whose dtypes differ between the trees: the stack holds every value (numpy promotion), not the first tree's dtype
+    mixed = [{'v': np.int32(1)}, {'v': np.float32(0.5)}, {'v': 0.125}, {'v': np.int32(-2)}][:k + 1]
+    sm = np.asarray(common_utils.stack_forest(mixed)['v'], np.float64).tolist()
+    if sm != [1.0, 0.5, 0.125, -2.0][:k + 1]:
+      chk.violation('C20:stack_forest', f'stack_forest of leaves {[m["v"] for m in mixed]} gives {sm}', {'k': k})
     dm = [jax_utils.replicate(f) for f in forest]
     gm = common_utils.get_metrics(dm)
     if np.asarray(gm['m']).shape != (k, 2) or any(not np.array_equal(gm['m'][i], forest[i]['m']) for i in range(k)):
